@@ -305,9 +305,13 @@ def load_experiment(
     try:
         results_fname = ST_RESULTS_DATAFRAME_FILENAME
         if (path / results_fname).exists():
-            results = pd.read_csv(path / results_fname)
+            results = pd.read_csv(
+                path / results_fname, keep_default_na=False, na_values=[""]
+            )
         else:
-            results = pd.read_csv(path / results_fname[:-4])
+            results = pd.read_csv(
+                path / results_fname[:-4], keep_default_na=False, na_values=[""]
+            )
     except Exception:
         results = None
     if load_tuner:
